@@ -226,6 +226,44 @@ class TList(Ty):
         return self.mk(n + 1, z3.Store(self.arr(x), n, lift(v, self.elem).t))
 
 
+class TOMap(Ty):
+    """insertion-ordered dict: (keys: duplicate-free list, arr: Array K V).  elems(keys) is its domain."""
+
+    def __init__(self, key: Ty, val: Ty):
+        self.key = key
+        self.val = val
+        self.name = f"OMap[{key.name},{val.name}]"
+        self.keys_ty = TList(key)
+
+    def _dt(self):
+        k = "DT:" + self.name
+        if k not in _dt_cache:
+            n = _san(self.name)
+            d = z3.Datatype(n)
+            d.declare("mk_" + n, ("keys_" + n, self.keys_ty.sort()), ("arr_" + n, z3.ArraySort(self.key.sort(), self.val.sort())))
+            _dt_cache[k] = d.create()
+        return _dt_cache[k]
+
+    def sort(self):
+        return self._dt()
+
+    def mk(self, keys, arr):
+        return SV(getattr(self._dt(), "mk_" + _san(self.name))(keys.t if isinstance(keys, SV) else keys, arr), self)
+
+    def keys(self, m):
+        return SV(getattr(self._dt(), "keys_" + _san(self.name))(m.t), self.keys_ty)
+
+    def arr(self, m):
+        return getattr(self._dt(), "arr_" + _san(self.name))(m.t)
+
+    def at(self, m, k):
+        return SV(z3.Select(self.arr(m), lift(k, self.key).t), self.val)
+
+    def empty(self):
+        arr = z3.Const("emptyomap_" + _san(self.name), z3.ArraySort(self.key.sort(), self.val.sort()))
+        return self.mk(self.keys_ty.empty(), arr)
+
+
 class TTuple(Ty):
     def __init__(self, elems):
         self.elems = tuple(elems)
@@ -489,6 +527,8 @@ class SV:
             return SV(z3.Select(self.t, lift(i, ty.arg).t), ty.ret)
         if isinstance(ty, TList):
             return ty.at(self, i)
+        if isinstance(ty, TOMap):
+            return ty.at(self, i)
         if isinstance(ty, TSeq) or ty == TStr:
             if isinstance(i, slice):
                 return seq_slice(self, i.start, i.stop)
@@ -523,6 +563,8 @@ class SV:
             return SV(z3.Length(self.t), TInt)
         if isinstance(ty, TList):
             return ty.len(self)
+        if isinstance(ty, TOMap):
+            return ty.keys_ty.len(ty.keys(self))
         raise Unsupported(f"len() of {ty.name} (cardinality is not modelled)")
 
     def union(self, o):
@@ -685,7 +727,7 @@ def lift(v, ty: Ty | None = None) -> SV:
             for x in v:
                 s = s.add(x)
             return s
-    elif isinstance(ty, TMap):
+    elif isinstance(ty, (TMap, TOMap)):
         if isinstance(v, dict) and not v:
             return ty.empty()
     raise Unsupported(f"cannot lift {v!r} to {ty}")
